@@ -115,8 +115,9 @@ fn main() {
         if cfg.budget.is_some() && cfg.budget.unwrap() <= 2 && cfg.l == 2 && cfg.bucketsize == 2 && cfg.n_buckets == 2 {
             let cm = CfModel::new(cfg.clone(), Mode::Classes, false).unwrap();
             let cex = cuckoo::explore(&cm, true, 400_000, 1);
-            let rights: Vec<cuckoo::St> = cex.states.iter().filter(|s| s.f.len() <= if thorough { 4 } else { 2 }).cloned().collect();
-            let r = cuckoo::pair_sweep(&cm, &cex.states, &rights, 1);
+            let rights: Vec<cuckoo::St> = cex.states.iter().filter(|s| s.off == 0 && s.f.len() <= if thorough { 4 } else { 2 }).take(5000).cloned().collect();
+            let lefts: Vec<cuckoo::St> = cex.states.iter().filter(|s| s.off == 0).take(5000).cloned().collect();
+            let r = cuckoo::pair_sweep(&cm, &lefts, &rights, 1);
             ps = r.0;
             pv = r.1;
         }
